@@ -143,13 +143,48 @@ class Inliner(object):
         # rules also match callees by unqualified / base name (lastname, basename)
         return short in self.anchor_strings or (d.get('cls') and d['cls'] in self.anchor_strings and False)
 
+    def lambda_only_called(self, fid, d):
+        """A lambda stored in a local that is only ever called through that local (never passed on)."""
+        if not d.get('lambda'):
+            return False
+        for caller in self.callers.get(fid, ()):
+            F = self.fns[caller]
+            holders = set()
+            for b in F['blocks']:
+                for e in b['ev']:
+                    if e.get('k') == 'decl' and any((x.get('fn') or x.get('id') or x.get('n')) in (fid, d.get('name')) for x in _walk(e.get('init'))):
+                        holders.add(e['n'])
+            if not holders:
+                return False
+            for b in F['blocks']:
+                for e in b['ev'] + ([b['term']] if 'term' in b else []):
+                    def uses(x, in_recv=False):
+                        # every mention of the holder must be the receiver of a call of this lambda
+                        if isinstance(x, dict):
+                            if x.get('k') == 'var' and x.get('n') in holders and not in_recv:
+                                return True
+                            for kk, vv in x.items():
+                                if kk == 'recv' and x.get('k') == 'call' and x.get('fn') == fid and isinstance(vv, dict) and \
+                                        vv.get('k') == 'var' and vv.get('n') in holders:
+                                    continue
+                                if kk == 'n' and x.get('k') == 'decl':
+                                    continue
+                                if uses(vv):
+                                    return True
+                        elif isinstance(x, list):
+                            return any(uses(y) for y in x)
+                        return False
+                    if uses(e):
+                        return False
+        return True
+
     def is_helper(self, fid):
         d = self.fns[fid]
         if d.get('virt') or d.get('ctor') or d.get('dtor') or d.get('overrides'):
             return False
         if len(d['blocks']) > MAX_BLOCKS or self.is_anchor(d):
             return False
-        if fid in self.addr_taken or d.get('name') in self.addr_taken:
+        if (fid in self.addr_taken or d.get('name') in self.addr_taken) and not self.lambda_only_called(fid, d):
             return False
         if (d.get('name') or '').startswith(('operator', 'std::')) or '::operator' in (d.get('name') or ''):
             return False
